@@ -208,9 +208,9 @@ Definition named_param (named : bool) (ts : list tok) : bool :=
   let c := cur ts in
   let p := peek ts in
   if named && is_name c then
-    if negb (is_dtn (tv c)) && negb (tok_is T_EQ p) then true
-    else if negb (tok_is T_EQ p) && (tok_is T_IDENT p || tok_is T_LPAREN p) then
-      if tok_is T_IDENT p && is_dtn (tv p) then true
+    if negb (is_dtn (tv c)) && negb (tok_is T_EQ p) && negb (tok_is T_COMMA p) && negb (tok_is T_RPAREN p) then true
+    else if negb (tok_is T_EQ p) && (is_name p || tok_is T_LPAREN p) then
+      if is_name p && is_dtn (tv p) then true
       else if tok_is T_LPAREN p then negb (is_dtn (tv c))
       else false
     else false
@@ -320,7 +320,7 @@ Definition escape_string_literal (s : list N) : list N := flat_map esl_byte s.
 (* escapeStringForTypeParam *)
 Definition estp_byte (b : N) : list N :=
   if b =? 92 then [92; 92; 92; 92; 92; 92; 92; 92]
-  else if b =? 39 then [92; 92; 92; 92; 92; 39]
+  else if b =? 39 then [92; 92; 92; 92; 92; 92; 92; 39]
   else if b =? 10 then [92; 92; 92; 92; 110]
   else if b =? 9 then [92; 92; 92; 92; 116]
   else if b =? 13 then [92; 92; 92; 92; 114]
@@ -349,7 +349,7 @@ with fmt_param (p : param) : list N :=
   match p with
   | PType d => fmt_dt d
   | PNamed n d => (if needs_backtick n then [96] ++ n ++ [96] else n) ++ [32] ++ fmt_dt d
-  | PStr s => q3 ++ s ++ q3                                                   (* "%s": not escaped *)
+  | PStr s => q3 ++ escape_type_param s ++ q3
   | PInt n => to_dec n
   | PNeg n => [45] ++ to_dec n
   | PBin l op neg n =>
